@@ -5,6 +5,15 @@ here = os.path.dirname(os.path.dirname(os.path.abspath(__file__)))
 
 # id -> (technique, level text, level note, design ref)
 CHECKS = {
+    "C15": (
+        "Hypothesis-generated ordered feature lists and gene/transcript/exon databases against a reference gap loop",
+        "interfeatures() must yield exactly the reference sequence of gaps (seqid, start, end, featuretype, strand, attribute map incl. numeric "
+        "sort, '-'-joined IDs and update_attributes) for lists with gaps, adjacency, overlap, nesting and seqid changes, leaving inputs and "
+        "database unchanged; create_introns / create_splice_sites must equal, as multisets, the gaps between each transcript's start-ordered "
+        "exons and their two-base sites labelled by side and strand.",
+        "Reference loop ref_inter() in gfv/props/c15.py; generated exons of a transcript have distinct starts.",
+        "DESIGN.md section 4 C15, Appendix A.4",
+    ),
     "C11": (
         "Hypothesis-generated feature sets and query combinations; brute-force filter + SQLite-ordering monotonicity oracle",
         "3-30 features with mixed-case/non-ASCII/numeric-looking text columns, '.' coordinates and ties are queried ~25 times each through "
